@@ -6,6 +6,7 @@ import (
 	"fmt"
 	"go/types"
 	"sort"
+	"strconv"
 	"strings"
 
 	"golang.org/x/tools/go/ssa"
@@ -13,9 +14,9 @@ import (
 
 // ---- control panics (never visible to the target program) ----
 
-type pathEnd struct{ reason string }     // path is over (infeasible / Assume false / deliberate end)
-type unsupported struct{ msg string }    // construct outside the executor's reach
-type abortAll struct{ reason string }    // another thread ended the run
+type pathEnd struct{ reason string }      // path is over (infeasible / Assume false / deliberate end)
+type unsupported struct{ msg string }     // construct outside the executor's reach
+type abortAll struct{ reason string }     // another thread ended the run
 type budgetExceeded struct{ what string } // unwinding assertion failed
 type crashed struct {                     // target panic escaped a goroutine
 	msg string
@@ -69,10 +70,10 @@ type runState struct {
 	allowInit *ssa.Function
 	sched
 	intrinsicState
-	concFails []string
-	hashes    []hashRecord
-	intSide   []*Term
-	randReads int
+	concFails      []string
+	hashes         []hashRecord
+	intSide        []*Term
+	randReads      int
 	intSideChecked int
 }
 
@@ -216,9 +217,13 @@ func (i *interpreter) concretize(s symv, what string, max int) int64 {
 // indexOf resolves an index (panicking like Go on out-of-range).
 func (i *interpreter) indexOf(idx value, n int) int {
 	if s, ok := idx.(symv); ok {
-		// concretise by forking over the possible in-range values (small n only)
+		// concretise by forking over the possible in-range values; for long sequences the feasible
+		// values are enumerated from solver models instead of being tested one by one
 		if n > 64 {
-			panic(unsupported{"symbolic index into long sequence"})
+			if n > 4096 || s.t.sort == SInt {
+				panic(unsupported{"symbolic index into long sequence"})
+			}
+			return i.indexByModels(s, n)
 		}
 		w := kindWidth(s.k)
 		k := i.decide("idx", n+1, func(k int) *Term {
@@ -240,6 +245,80 @@ func (i *interpreter) indexOf(idx value, n int) int {
 		panic(runtimeErrorString(fmt.Sprintf("runtime error: index out of range [%d] with length %d", j, n)))
 	}
 	return int(j)
+}
+
+// indexByModels forks over the feasible values of a symbolic index into a sequence of length n
+// (n = out of range), found by repeatedly asking the solver for a value not seen yet.
+func (i *interpreter) indexByModels(s symv, n int) int {
+	w := i.w
+	width := kindWidth(s.k)
+	cond := func(k int) *Term {
+		if k == n {
+			if kindSigned(s.k) {
+				return Or(BVCmp("bvslt", s.t, BVConst(width, 0)), BVCmp("bvsge", s.t, BVConst(width, uint64(n))))
+			}
+			return BVCmp("bvuge", s.t, BVConst(width, uint64(n)))
+		}
+		return Eq(s.t, BVConst(width, uint64(k)))
+	}
+	const kind = "idx-by-models"
+	if i.dptr < len(w.decisions) {
+		d := w.decisions[i.dptr]
+		if d.kind != kind || d.n != n+1 {
+			panic(unsupported{fmt.Sprintf("non-deterministic re-execution: decision %d was %s/%d, now %s/%d", i.dptr, d.kind, d.n, kind, n+1)})
+		}
+		i.dptr++
+		ch := d.alts[d.idx]
+		i.addPC(cond(ch))
+		if ch == n {
+			panic(runtimeErrorString(fmt.Sprintf("runtime error: index out of range [symbolic] with length %d", n)))
+		}
+		return ch
+	}
+	var alts []int
+	inRange := Not(cond(n))
+	excl := []*Term{inRange}
+	for len(alts) < n {
+		res, model := w.solver.Check(And(excl...), []*Term{s.t})
+		w.stats.FeasQueries++
+		if res == "unsat" {
+			break
+		}
+		if res != "sat" {
+			panic(unsupported{"symbolic index into long sequence: solver answered " + res})
+		}
+		raw := strings.TrimSpace(model[s.t.leaf()])
+		var v uint64
+		var err error
+		switch {
+		case strings.HasPrefix(raw, "#x"):
+			v, err = strconv.ParseUint(raw[2:], 16, 64)
+		case strings.HasPrefix(raw, "#b"):
+			v, err = strconv.ParseUint(raw[2:], 2, 64)
+		default:
+			err = fmt.Errorf("no value")
+		}
+		if err != nil || v >= uint64(n) {
+			panic(unsupported{"symbolic index into long sequence: unreadable model value " + raw})
+		}
+		alts = append(alts, int(v))
+		excl = append(excl, Not(cond(int(v))))
+	}
+	if res, _ := w.solver.Check(cond(n), nil); res != "unsat" {
+		w.stats.FeasQueries++
+		alts = append(alts, n)
+	}
+	if len(alts) == 0 {
+		panic(pathEnd{"infeasible"})
+	}
+	w.decisions = append(w.decisions, &decision{kind: kind, alts: alts, n: n + 1})
+	i.dptr++
+	ch := alts[0]
+	i.addPC(cond(ch))
+	if ch == n {
+		panic(runtimeErrorString(fmt.Sprintf("runtime error: index out of range [symbolic] with length %d", n)))
+	}
+	return ch
 }
 
 func (i *interpreter) step(fr *frame, instr ssa.Instruction) {
